@@ -385,6 +385,9 @@ func runCheck(id, tier, replay string) int {
 	}
 	passes := []pass{}
 	for _, pt := range parts {
+		if only := os.Getenv("VERIF_ONLY_PART"); only != "" && only != pt.Func {
+			continue // development aid: one part of a check (the evidence then describes that part only)
+		}
 		if !ck.RaceOnly {
 			passes = append(passes, pass{pt, false, "plain"})
 		}
